@@ -102,12 +102,20 @@ def shift_case(draw):
     times = sorted(draw(st.lists(st.sampled_from([0, 0.5, 1, 1.5, 2, 3, 4, 5.5, 7]), min_size=n, max_size=n)))
     L = [draw(st.integers(0, 20)) for _ in range(n)]
     thr = draw(st.integers(0, max(L)))
-    return {'times': times, 'L': L, 'threshold': thr, 'arrays': draw(st.booleans())}
+    gaps = []
+    if draw(st.integers(0, 3)) == 0:
+        # missing observations (NaN, e.g. a 0/0 ratio early in an outbreak): they never 'reach' a threshold; at least one real
+        # observation at or above the threshold is kept
+        keep = max(range(n), key=lambda i: L[i])
+        gaps = [i for i in range(n) if i != keep and draw(st.integers(0, 2)) == 0]
+    return {'times': times, 'L': L, 'threshold': thr, 'arrays': draw(st.booleans()), 'gaps': gaps}
 
 
 def prop_shift(case):
     import EoN
-    times, L, thr = case['times'], case['L'], case['threshold']
+    times, L, thr = case['times'], list(case['L']), case['threshold']
+    for i in case.get('gaps') or []:
+        L[i] = float('nan')
     want = next(t for t, v in zip(times, L) if v >= thr)
     conv = (lambda x: np.array(x)) if case['arrays'] else (lambda x: list(x))
     try:
@@ -118,7 +126,7 @@ def prop_shift(case):
     except Exception as e:
         return Result([Failure('get_time_shift:exception:%s' % exc_signature(e), 'raised %r' % (e,))])
     first = next(i for i, v in enumerate(L) if v >= thr)
-    return Result([], nontrivial=len(times) >= 3 and first > 0, classes=['first>0'] if first > 0 else ['first==0'])
+    return Result([], nontrivial=len(times) >= 3 and first > 0, classes=(['first>0'] if first > 0 else ['first==0']) + (['missing-observations'] if case.get('gaps') else []))
 
 
 @st.composite
